@@ -139,6 +139,39 @@ pub fn run(out: &mut Out, seed: u64, tier: &str) {
             }
         }
     }
+    // exact ties under exact motions: a centre with more candidates at bit-identical distances than its valence allows (coordinates
+    // on a 2^-10 grid), moved by half-turns about the coordinate axes and by grid translations — motions under which every distance
+    // is reproduced bit for bit, so the perceived bonds and the force field built from them must be the same, tie or no tie
+    let mut n_ties = 0usize;
+    let half_turns: [[[f64; 3]; 3]; 3] = [[[1., 0., 0.], [0., -1., 0.], [0., 0., -1.]], [[-1., 0., 0.], [0., 1., 0.], [0., 0., -1.]], [[-1., 0., 0.], [0., -1., 0.], [0., 0., 1.]]];
+    for case in 0..(if tier == "thorough" { 120 } else { 24 }) {
+        let (zc, d) = *rng.pick(&[(1usize, 1.125f64), (9, 1.25), (1, 1.0), (17, 1.5), (8, 1.375), (3, 1.75)]);
+        let ligs = [9usize, 17, 35, 8, 7, 16, 1];
+        let dirs: [[f64; 3]; 6] = [[-1., 0., 0.], [1., 0., 0.], [0., -1., 0.], [0., 1., 0.], [0., 0., -1.], [0., 0., 1.]];
+        let nl = 2 + rng.below(4);
+        let mut zs = vec![zc]; let mut xs = vec![[0.0f64; 3]];
+        let mut order: Vec<usize> = (0..6).collect(); rng.shuffle(&mut order);
+        for k in 0..nl { zs.push(ligs[rng.below(ligs.len())]); let u = dirs[order[k]]; xs.push([u[0] * d, u[1] * d, u[2] * d]); }
+        zs.push(18); xs.push([6.5, 4.25, -5.0]);
+        let m = Mol { name: format!("exact-ties-{}", case), zs, xs };
+        let t = [0.5 * (rng.below(9) as f64 - 4.0), 0.25 * (rng.below(9) as f64 - 4.0), 0.125 * (rng.below(17) as f64 - 8.0)];
+        let r = half_turns[case % 3];
+        let mm = moved(&m, &r, t);
+        let (mol, mol2) = match (catch(|| m.build()), catch(|| mm.build())) { (Some(a), Some(b)) => (a, b), _ => continue };
+        n_ties += 1;
+        let replay = format!("half-turn {:?} and translation {:?} (all distances reproduced bit for bit) of\n{}", r, t, m.xyz_text());
+        let (c1, c2) = (canon_conn(&connectivity(&mol)), canon_conn(&connectivity(&mol2)));
+        if c1 != c2 { out.oracle_fail(&format!("perceived connectivity changed under a rigid motion that reproduces every distance exactly: {} -> {}", c1, c2), &replay); continue; }
+        for kind in ["uff", "rb"] {
+            if let (Some(mut f1), Some(mut f2)) = (FF::build(kind, &mol), FF::build(kind, &mol2)) {
+                let (e1, e2) = (f1.energy(&mol.coordinates), f2.energy(&mol2.coordinates));
+                if e1.is_finite() && e2.is_finite() && (e1 - e2).abs() > 1e-9 * e1.abs().max(1.0) {
+                    out.oracle_fail(&format!("{}: energy of the force field built from the moved structure differs: {} vs {}", kind, e1, e2), &replay);
+                }
+            }
+        }
+    }
+    out.stat("exact_tie_structures_under_exact_motions", n_ties);
     out.case("rigid summary", "-");
     out.stat("force_fields_checked", n);
     out.stat("perception_checks_skipped_on_threshold", skipped);
